@@ -79,10 +79,10 @@ class PostgreSQLQueryBuilder(QueryBuilder):
                 self._return_other(self.wrap_constant(term, self._wrapper_cls))
 
     def _validate_returning_term(self, term: Term) -> None:
-        for field in term.fields_():
-            if not any([self._insert_table, self._update_table, self._delete_from]):
-                raise QueryException("Returning can't be used in this query")
+        if not any([self._insert_table, self._update_table, self._delete_from]):
+            raise QueryException("Returning can't be used in this query")
 
+        for field in term.fields_():
             table_is_insert_or_update_table = field.table in {
                 self._insert_table,
                 self._update_table,
